@@ -101,9 +101,17 @@ type ContractFile struct {
 	Pures     []string
 	Consts    []Param
 	Sorts     []string
+	AbsFields []AbsField
 }
 
-var keywordRe = regexp.MustCompile(`^(spec|axiom|lemma|pure|func|interface|lib|arith|requires|ensures|modifies|decreases|loop|at|ghost|inline|assume|safety|use|const|sort|trusted|opt)\b`)
+var keywordRe = regexp.MustCompile(`^(spec|axiom|lemma|pure|func|interface|lib|arith|requires|ensures|modifies|decreases|loop|at|ghost|inline|assume|safety|use|const|sort|trusted|opt|absfield)\b`)
+
+// AbsField declares an abstract (ghost) field of a named type, e.g. the content of a library map.
+type AbsField struct {
+	Type  string // qualified type name (pkgpath.Name) or local name
+	Name  string
+	FType string
+}
 var labelRe = regexp.MustCompile(`^([A-Za-z][A-Za-z0-9_\-\.]*):\s+(.*)$`)
 
 type rawLine struct {
@@ -164,7 +172,7 @@ func mkClause(src, file string, line int, allowLabel bool) (*Clause, error) {
 	return c, nil
 }
 
-var funcHdrRe = regexp.MustCompile(`^(?:\(\s*(\w+)?\s*(\*?)\s*([\w\.]+)(?:\[[^\]]*\])?\s*\)\s*)?([\w\.\$#]+)\s*(?:\[[^\]]*\])?\s*(?:\((.*?)\))?\s*(?:\((.*)\)|([\w\.\*\[\]]+))?\s*$`)
+var funcHdrRe = regexp.MustCompile(`^(?:\(\s*(?:(\w+)\s+)?(\*?)\s*([\w\./\-]+)(?:\[[^\]]*\])?\s*\)\s*)?([\w\./\-\$#@]+)\s*(?:\[[^\]]*\])?\s*(?:\((.*?)\))?\s*(?:\((.*)\)|([\w\.\*\[\]]+))?\s*$`)
 
 func parseParams(s string) []Param {
 	s = strings.TrimSpace(s)
@@ -229,6 +237,13 @@ func ParseContractFile(path, pkg string) (*ContractFile, error) {
 		switch kw {
 		case "sort":
 			cf.Sorts = append(cf.Sorts, rest)
+			cur = nil
+		case "absfield":
+			f := strings.Fields(rest)
+			if len(f) < 3 {
+				return nil, fail("absfield <type> <name> <fieldtype>")
+			}
+			cf.AbsFields = append(cf.AbsFields, AbsField{Type: f[0], Name: f[1], FType: strings.Join(f[2:], " ")})
 			cur = nil
 		case "spec":
 			// spec name(params) type [= expr]
